@@ -425,6 +425,11 @@ func (l *clex) parseUnary() CExpr {
 		l.next()
 		return CUnary{"-", l.parseUnary()}
 	}
+	if l.isOp("*") {
+		// *p: the value a pointer refers to
+		l.next()
+		return CUnary{"*", l.parseUnary()}
+	}
 	return l.parsePostfix()
 }
 func (l *clex) parsePostfix() CExpr {
